@@ -47,10 +47,15 @@ class C02(Prop):
                     labels = base if direction == "inc" else base[::-1]
                     if n <= 1 and direction == "dec":
                         continue
-                    ax = {"name": "x", "kind": kind, "labels": [enc(v) for v in labels], "_order": direction}
-                    for s, e, st in itertools.product(bounds, bounds, steps):
-                        yield {"op": "loc", "axis": ax, "ix": ["sl", None if s is None else enc(s),
-                                                             None if e is None else enc(e), st], "_src": "grid"}
+                    variants = [None] + (["uint8"] if kind == "i" and n >= 1 else []) + (["float32"] if kind == "f" and n >= 1 else [])
+                    for ld in variants:
+                        # (the same labels stored unsigned / in single precision: the grid is repeated on them)
+                        ax = {"name": "x", "kind": kind, "labels": [enc(v) for v in labels], "_order": direction}
+                        if ld:
+                            ax["ldtype"] = ld
+                        for s, e, st in itertools.product(bounds, bounds, steps):
+                            yield {"op": "loc", "axis": ax, "ix": ["sl", None if s is None else enc(s),
+                                                                 None if e is None else enc(e), st], "_src": "grid"}
 
     def strict_cases(self, rng, n_axes):
         steps = [None, 1, 2, 3, -1, -2]
@@ -91,9 +96,16 @@ class C02(Prop):
                 else:
                     ix, k = (c1.gen_ix_pos(rng, len(ax["labels"])) if posmode else c1.gen_ix_label(rng, ax))
                 ixs.append(ix); kinds.append(k)
-            yield {"op": "take", "array": arr, "option": "label", "spelling": "ix" if posmode else rng.choice(["getitem", "loc", "take"]),
-                   "mode": "position" if posmode else "label", "as_array": False,
-                   "index": {"form": "tuple", "ix": ixs}, "bare": False, "_ixkinds": kinds, "_src": "nd"}
+            c = {"op": "take", "array": arr, "option": "label", "spelling": "ix" if posmode else rng.choice(["getitem", "loc", "take"]),
+                 "mode": "position" if posmode else "label", "as_array": False,
+                 "index": {"form": "tuple", "ix": ixs}, "bare": False, "_ixkinds": kinds, "_src": "nd"}
+            if rng.random() < 0.2:
+                # one slice along one dimension, the dimension given with axis= (name, position or negative position)
+                d = rng.randrange(rank)
+                c["spelling"] = "take_position" if posmode else "take"
+                c["index"] = {"form": "axis", "ix": ixs[d], "axis": rng.choice([["name", arr["axes"][d]["name"]], ["pos", d], ["pos", d - rank]])}
+                c["_ixkinds"] = [kinds[d]]
+            yield c
 
     def rand_label_slice(self, rng, ax):
         labels = ax["labels"]
